@@ -187,7 +187,7 @@ Proof.
     + left. rewrite (quiet_fault _ _ (quiet_blk_recheck_inr _ _ _ _ E)). exact Hf.
 Qed.
 
-Theorem fault_only_null_link h : f01 (fst (run init h)).
+Theorem fault_only_null_link b h : f01 (fst (run (init_at b) h)).
 Proof.
   assert (G : forall h st, calls_ok st -> f01 st -> f01 (fst (run st h))).
   { clear h. induction h as [|e h IH]; intros st Hok Hf; simpl; auto.
